@@ -2,10 +2,14 @@ package main
 
 import (
 	"fmt"
+	"go/ast"
+	"go/parser"
+	"go/token"
 	"os"
 	"path/filepath"
 	"strings"
 	"sync"
+	"time"
 )
 
 func init() { register("C12", "exploration", checkC12) }
@@ -82,6 +86,7 @@ func checkC12(c *Ctx) {
 	K3tags := K3.with("K3tags", nil, nil, []string{"-tags=zqsometag"})
 	cfgs := []Config{K0, K1, K2, K3, K4, K23, K3t}
 	pool := warmPool(g, false, cfgs...)
+	c12TestVariants(c, g)
 	nprog := c.pick(1, 3)
 	for pi := 0; pi < nprog; pi++ {
 		base := generate(subRand(c.Seed, "c12", c.Tier, pi), GenOpts{NoTests: true, MinFeats: 8, MaxFeats: 12, NLibs: 3})
@@ -215,6 +220,70 @@ func checkC12(c *Ctx) {
 		if !c.Quick() && pi == 0 {
 			c12Thorough(c, g, pool, base, works[base], maps, mustDiffer, mustEqual)
 		}
+	}
+}
+
+// c12TestVariants: under -seed, the same identifier declared in a package and in its external
+// test package (two packages) must get different names in `garble test`, and the package's own
+// names must equal the ones it has in a regular `garble build`.
+func c12TestVariants(c *Ctx, g *GarbleBin) {
+	const mod = "zqtv.example.com/tv"
+	p := &Prog{Module: mod, Files: map[string]string{
+		"go.mod":               "module " + mod + "\n\ngo 1.26\n",
+		"main.go":              "package main\n\nimport \"" + mod + "/foo\"\n\nfunc main() { println(foo.ZqOnlyFoo()) }\n",
+		"foo/foo.go":           "package foo\n\n//go:noinline\nfunc ZqSame() int { return 1 }\n\n//go:noinline\nfunc ZqOnlyFoo() int { return ZqSame() }\n",
+		"foo/foo_int_test.go":  "package foo\n\nimport \"testing\"\n\nfunc TestInt(t *testing.T) {\n\tif ZqSame() != 1 {\n\t\tt.Fatal(\"bad\")\n\t}\n}\n",
+		"foo/foo_ext_test.go":  "package foo_test\n\nimport (\n\t\"testing\"\n\n\t\"" + mod + "/foo\"\n)\n\n//go:noinline\nfunc ZqSame() int { return 2 }\n\nfunc TestExt(t *testing.T) {\n\tif foo.ZqOnlyFoo()+ZqSame() != 3 {\n\t\tt.Fatal(\"bad\")\n\t}\n}\n",
+	}}
+	w := materialize(p, "c12tv")
+	defer w.cleanup()
+	pool := warmPool(g, true, K3)
+	firstFunc := func(path string) string {
+		src, err := os.ReadFile(path)
+		if err != nil {
+			return ""
+		}
+		f, err := parser.ParseFile(token.NewFileSet(), path, src, parser.SkipObjectResolution)
+		if err != nil {
+			return ""
+		}
+		for _, d := range f.Decls {
+			if fd, ok := d.(*ast.FuncDecl); ok {
+				return fd.Name.Name
+			}
+		}
+		return ""
+	}
+	keptTest := filepath.Join(w.Root, "kept-test")
+	keptBuild := filepath.Join(w.Root, "kept-build")
+	must(os.MkdirAll(keptTest, 0o755))
+	must(os.MkdirAll(keptBuild, 0o755))
+	rt := pool.Box(filepath.Join(w.Root, "tmp-t")).Garble(g, K3, w.Dir, 20*time.Minute, []string{"GARBLE_VERIF_KEEPSRC=" + keptTest}, "test", "-c", "-o", filepath.Join(w.Root, "foo.test"), "./foo")
+	rb := pool.Box(filepath.Join(w.Root, "tmp-b")).Garble(g, K3, w.Dir, 20*time.Minute, []string{"GARBLE_VERIF_KEEPSRC=" + keptBuild}, "build", "-o", filepath.Join(w.Root, "main.bin"), ".")
+	if !rt.OK() || !rb.OK() {
+		c.Inconclusive("test-variant builds failed: " + firstLine(string(rt.Err)+string(rb.Err)))
+		return
+	}
+	base := filepath.Join(keptTest, filepath.FromSlash(mod))
+	inVariant := firstFunc(filepath.Join(base, "foo ["+mod+"/foo.test]", "foo.go"))
+	inXTest := firstFunc(filepath.Join(base, "foo_test ["+mod+"/foo.test]", "foo_ext_test.go"))
+	inBuild := firstFunc(filepath.Join(keptBuild, filepath.FromSlash(mod), "foo", "foo.go"))
+	if inVariant == "" || inXTest == "" || inBuild == "" {
+		c.Inconclusive(fmt.Sprintf("could not locate the garbled test-variant sources (variant=%q xtest=%q build=%q)", inVariant, inXTest, inBuild))
+		return
+	}
+	c.Eval("testvariant|xtest-differs")
+	c.Eval("testvariant|variant-equals-build")
+	files := w.replayFiles(map[string]string{"names.txt": fmt.Sprintf("foo [foo.test].ZqSame=%s\nfoo_test [foo.test].ZqSame=%s\nfoo.ZqSame (garble build)=%s\n", inVariant, inXTest, inBuild)})
+	if inVariant == "ZqSame" || inXTest == "ZqSame" {
+		c.Inconclusive("ZqSame was not obfuscated in the test variants")
+		return
+	}
+	if inVariant == inXTest {
+		c.Violate("seeded-same-name-in-two-packages/test-variant", fmt.Sprintf("with -seed, ZqSame is named %q both in package foo and in its external test package foo_test under `garble test`", inVariant), files)
+	}
+	if inVariant != inBuild {
+		c.Violate("seeded-name-changes/test-variant", fmt.Sprintf("with -seed, foo.ZqSame is named %q under `garble test` but %q under `garble build`", inVariant, inBuild), files)
 	}
 }
 
